@@ -149,10 +149,34 @@ def tensor_key(t):
     return ("mem", int(t.dtype), shape_key(t.shape), t.tobytes(), t.doc_string or "", meta)
 
 
+def logical_tensor_bytes(t):
+    """(numpy dtype, shape, row-major little-endian bytes of the elements) through t.numpy(), independent of
+    Tensor.tobytes(); None when the tensor has no comparable numpy view (strings, external data, errors)."""
+    import numpy as np
+    import onnx_ir as ir
+    if isinstance(t, (ir.ExternalTensor, ir.StringTensor)) or int(t.dtype) == 8:
+        return None
+    try:
+        a = np.ascontiguousarray(t.numpy())
+        if a.dtype.byteorder == ">":
+            a = a.astype(a.dtype.newbyteorder("<"))
+        return (str(a.dtype), tuple(a.shape), a.tobytes())
+    except Exception:  # noqa: BLE001
+        return None
+
+
 def tensor_key_serialized(t):
     """Key of the tensor as it will look after one serialization round trip (leaf level)."""
     from onnx_ir import serde
-    k = tensor_key(serde.deserialize_tensor(serde.serialize_tensor(t)))
+    rt = serde.deserialize_tensor(serde.serialize_tensor(t))
+    k = tensor_key(rt)
+    # The content goes through the serializer under test: check it independently against the LOGICAL (row-major)
+    # elements of the IR tensor; when they differ (e.g. a non-C-contiguous backing array dumped in memory order) the
+    # key is one no proto-side key can equal, so the model disagrees with the code on that case.
+    lb = logical_tensor_bytes(t)
+    if lb is not None and lb != logical_tensor_bytes(rt):
+        return ("logical-content", int(t.dtype), shape_key(t.shape), lb[2], t.doc_string or "",
+                tuple(sorted((t.metadata_props or {}).items())))
     # the CONTENT is keyed in its serialized form (leaf level, C02/C04); the metadata is what the IR object says
     # now, so that a serializer re-emitting stale metadata of a proto-backed tensor disagrees with the model
     return k[:-1] + (tuple(sorted((t.metadata_props or {}).items())),)
@@ -839,6 +863,15 @@ PROTO-BACKED MODELS AND METADATA EDITS.  Recipe op `reload`: model := from_proto
   so "emptied after having been non-empty" is frequent) and `tensor_doc`.  PART 1: tensor_key_serialized keys the
   CONTENT of a tensor in serialized form but takes the METADATA from the IR object (it used to come out of the
   serializer under test, which made the model agree with a serializer that re-emits stale proto metadata).
+NON-C-CONTIGUOUS TENSORS.  About half of the ir.Tensor / LazyTensor tensors (initializers and attribute tensors) have
+  rank 2-3, distinct elements and a backing numpy array that is transposed, Fortran-ordered, strided or reversed
+  (recipe field `layout`).  The content is compared LOGICALLY: IsoCheck compares the row-major elements of
+  t.numpy() on both sides (not Tensor.tobytes() of the original), and PART 1 tensor_key_serialized checks the
+  serialized content against the logical elements of the IR tensor (logical_tensor_bytes) - when they differ the
+  heap token is one no proto-side token can equal, so agree_ser / agree_roundtrip fail.  Snapshot (a) still uses
+  tobytes() (it only asks "unchanged by to_proto").
+SEEDED CHANGES round 3: C03-r3m3 (Tensor.tobytes() dumps a Fortran-contiguous array in memory order: same dtype and
+  shape, permuted values) was not detected while the token and the oracle went through tobytes(); now detected.
 SEEDED CHANGES round 2: C03-r2m2 (stale metadata_props of a proto-backed tensor re-emitted after
   metadata_props.clear()) was not detected before `reload` / `meta_edit` existed; now agree_ser + agree_roundtrip and
   the oracle ("iso:const ... metadata differ", "iso:attr-tensor ... metadata differ", 6-op replay: tensor, value,
@@ -936,6 +969,17 @@ def mk_tensor(op):
         return ir.PackedTensor(np.array(data, dtype=np.uint8), ir.DataType.INT4, shape=ir.Shape(dims), name=name,
                                doc_string=doc, metadata_props=meta)
     arr = np.array(data, dtype=np.float64).astype(dt.numpy()).reshape(dims)
+    layout = op.get("layout")              # non-C-contiguous backing arrays with the same logical content
+    if layout == "T" and len(dims) >= 2:
+        arr = np.ascontiguousarray(arr.T).T
+    elif layout == "F":
+        arr = np.asfortranarray(arr)
+    elif layout == "stride" and len(dims) >= 1:
+        base = np.full(dims[:-1] + [2 * dims[-1]], 1, dtype=arr.dtype)
+        base[..., ::2] = arr
+        arr = base[..., ::2]
+    elif layout == "rev" and len(dims) >= 1:
+        arr = np.ascontiguousarray(arr[::-1])[::-1]
     if kind == "lazy":
         return ir.LazyTensor(lambda a=arr: ir.Tensor(a), dt, ir.Shape(dims), cache=bool(op.get("cache")), name=name,
                              doc_string=doc, metadata_props=meta)
@@ -1358,10 +1402,15 @@ class Gen:
             op.update(dtype=22, dims=[n], data=[r.randrange(256) for _ in range((n + 1) // 2)])
         else:
             dims = r.choice([[], [n], [2, n]])
+            if kind in ("np", "lazy") and r.random() < 0.5:
+                # rank >= 2, distinct elements, backed by a transposed / Fortran / strided / reversed numpy array
+                dims = r.choice([[2, 3], [3, 2], [2, 2], [2, 3, 2], [3, 1, 2]])
+                op["layout"] = r.choice(["T", "T", "F", "F", "stride", "rev"])
             cnt = 1
             for d in dims:
                 cnt *= d
-            op.update(dtype=r.choice(DTYPES), dims=dims, data=[r.randrange(6) for _ in range(cnt)])
+            op.update(dtype=r.choice(DTYPES), dims=dims,
+                      data=r.sample(range(cnt + 3), cnt) if "layout" in op else [r.randrange(6) for _ in range(cnt)])
             if kind == "lazy":
                 op["cache"] = r.random() < 0.5
             if kind == "tpt":
@@ -1478,7 +1527,8 @@ class Gen:
         al += list(graph_attrs)
         op = {"op": "node", "id": nid, "domain": r.choice(["", "", "", "custom.domain", "ai.onnx"]) if domain is None else domain,
               "type": op_type or r.choice(["Add", "Relu", "Identity", "Custom", "Split", "Constant"]),
-              "overload": overload, "ins": ins, "outs": outs, "attrs": al,
+              "overload": overload or (r.choice(["v2", "ov"]) if r.random() < 0.07 else ""),     # at any IR version
+              "ins": ins, "outs": outs, "attrs": al,
               "name": f"n{self.cnt['n']}" if r.random() < 0.7 else None}
         if r.random() < 0.1:
             op["doc"] = "ndoc"
@@ -2277,7 +2327,12 @@ def _tensor_content(t):
         return ("ext", os.fspath(t.location), t.offset, t.length)
     if int(t.dtype) == 8:
         return ("str", tuple(bytes(x) for x in t.string_data()))
-    return ("bytes", t.tobytes())
+    import numpy as np
+    try:                                   # the LOGICAL elements in row-major order, not Tensor.tobytes()
+        a = np.ascontiguousarray(t.numpy())
+        return ("elements", str(a.dtype), tuple(a.shape), a.tobytes())
+    except Exception:  # noqa: BLE001
+        return ("bytes", t.tobytes())
 
 
 def _same_tensor(a, b, name_b=None) -> list:
@@ -3078,6 +3133,9 @@ def run(ck) -> None:
                 ck.hist("edit_ops", k if st == "ok" else f"{k}:{st}")
         for t in ft["tensors"]:
             ck.hist("tensor_kinds", t)
+        for op in recipe["ops"]:
+            if op["op"] == "tensor" and op.get("layout"):
+                ck.hist("non_contiguous_tensor_layouts", f"{op['kind']}:{op['layout']}:rank{len(op['dims'])}")
         for d in ft["devices"]:
             ck.hist("node_device_configurations", d)
         if ft["model_devices"]:
